@@ -5,3 +5,6 @@ open SamVerif.Fmt SamVerif.CommentQueue
 #print axioms format_idempotent_fragment_partial
 #print axioms format_twice_fragment_partial
 #print axioms queue_delivers_with_next_token
+#print axioms decorate_undecorate
+#print axioms roundtrip_with_comments_partial
+#print axioms format_idempotent_with_comments_partial
